@@ -59,6 +59,8 @@ findings = [
       what="fixed: property=C19 e0b80d1 a hash string edited to digest length 0 and cut after the salt verified True for every password"),
  dict(status=F, property="C20", commit="83106f2", key="C20.R2|dispatch:MessageDispatcher.unregister_function|the delete is not guarded by `key not in registered_events`",
       what="fixed: property=C20 83106f2 unregister_function raised exactly when the event was registered and unregister compared a class with the registered names: handlers could never be removed"),
+ dict(status=F, property="C19", commit="fb400fa", key="C19.R1|auth:Auth.verify_password|no malformed hash string yields a verdict (True or False)",
+      what="fixed: property=C19 fb400fa verify_password decoded its base64 fields leniently (characters outside of the alphabet skipped): a hash string with a blank, a newline or junk characters inserted - e.g. h[:-6] + '!!' + h[-6:] - verified True instead of raising ValueError"),
 ]
 doc = {"comment": "Committed list of genuine defects found by the static checks. status=known entries suppress exactly the obligation with that key "
                   "(the check prints KNOWN-FINDING and exits 0); status=fixed entries are documentation only and suppress nothing: if the construct "
